@@ -4,7 +4,7 @@ from __future__ import annotations
 from ..selftest import B, M
 from .common import F_DISC, F_QUAL, F_QUAN
 from . import quant
-from .truthiness import check_truthiness
+from .truthiness import check_or_default, check_truthiness
 
 EXPLANATION = (
     "Decides the comparison table behind the statement (comparison normaliser, one reason per entry): "
@@ -31,6 +31,7 @@ def check(ctx):
     quant.check_nan_separate(ctx, "R-nan-separate")
     fns = [f for f in ctx.repo.all_functions() if f.module.relpath in (F_QUAL, F_QUAN, F_DISC)]
     check_truthiness(ctx, "R-value-truthiness", fns)
+    check_or_default(ctx, "R-value-truthiness", [f for f in ctx.repo.all_functions() if "/selectors/" not in f.module.relpath])
 
 
 MUTANTS = [
